@@ -305,7 +305,17 @@ def r5_pairing(ctx):
     r = Rule("C01.R5", "per-locale generators take value, string table and table size from the arm's own locale",
              "`nothing is taken from another locale`: the arm for locale X must render X's value with X's string table", floor=6)
     ast = ctx.ast
-    targets = [(ML, "create_locale_type_inner", None), (MI, "create_locale_impl", "Interpolation"), (MI, "create_locale_string_impl", "Interpolation"), (MI, "display_impl", "Interpolation")]
+    # the two generators of interpolated keys are decided by evaluation (rules/gentext.py): their arms are generated for a key whose
+    # locales differ in value, table size and fallbacks, and read back
+    from rules import gentext, absint as _absint
+    try:
+        arms_ok = gentext.check_locale_arms(ctx, r)
+    except _absint.Unknown as u:
+        arms_ok = False
+        r.viol("R5:undecided", "the per-locale generators cannot be interpreted on the current code (%s): not decided on this tree (fail closed)" % str(u)[:300], file=MI)
+    targets = [(ML, "create_locale_type_inner", None), (MI, "display_impl", "Interpolation")]
+    if not arms_ok:
+        targets += [(MI, "create_locale_impl", "Interpolation"), (MI, "create_locale_string_impl", "Interpolation")]
     fields = ("top_locale_name", "top_locale_string_count", "keys", "strings", "name")
     for f, name, ty in targets:
         fn = ast.fn(f, name, impl_self=ty)
